@@ -22,6 +22,7 @@ def run(ctx: Ctx) -> list[Ob]:
     obs += r4r.operator_rule_shapes(ctx, {'MULTIPLICATION'})
     obs += l2.run(ctx)
     obs += r14.product_input_order(ctx)
+    obs += extra.multiply_outputs(ctx)
     obs += r14.scope_keyed_inputs(ctx)
     obs += [o for o in r4.param_op_contracts(ctx) if o.construct.endswith(PRODUCT_OPS)]
     obs += r14.view_of_noncontiguous(ctx)
@@ -42,7 +43,7 @@ SPEC = PropSpec(
         "in different order); L1: column layout of the weight of a product of two sum layers vs. the order in which multiply lists "
         "its inputs. R7i: every comprehension over <circuit>.layer_inputs(<layer>) that re-wires a copied layer in this operator is an order-preserving total map (no `if` filter, not concatenated, not sorted / reversed / made a set): product layers and sum weights are positional. R7p (side typing of multiply: layers of sc1 / sc2, pairs, sequences of pairs, derived by def-use from the two parameters): every key of the pair->block table is a (layer of sc1, layer of sc2) pair -- never the swapped pair, whose block has its units in the other Kronecker order --, the layer rule is retrieved for (type(l1), type(l2)) and called as func(l1, l2). R4r (symbolic shape interpretation of the operator rules, nothing executed): each multiplication layer rule, applied to abstract operand layers built by interpreting the symbolic layer constructors on symbolic sizes (every parameterisation: probs / logits, optional log-partition, arity 1..3), composes parameter nodes only with operands of the shapes the nodes were built for, hands the resulting layer parameters of exactly the shape its constructor validates (for all sizes, not only when two sizes coincide) and returns a layer with Ko1 * Ko2 output units. L2 (layout typing with value tracking of index arrays): the constant permutation weight multiply_kronecker_layers builds with numpy (identity / arange, reshape, transpose, fancy indexing) has its columns laid out like the Kronecker layer of pair blocks ([i_1, j_1, .., i_n, j_n], sizes K1, K2, ..) and maps them to the Kronecker order of (operand 1, operand 2) = [i_1..i_n, j_1..j_n], for arity 2 and 3 -- an inverse or otherwise different permutation has the same shape and is invisible whenever K1 == K2."
         " R8 overlap-different-scope: the application of a product rule is unreachable for a pair of layers whose scopes overlap without being equal (outputs of multi-output operands over different scopes): such a pair is refused, not multiplied input by input into a non-decomposable result. R14g: the inputs of the block a product rule returns are wired in the operand's declared input order, not in a sorted order (known finding D24: today they follow sorted(.., key=scope), which breaks Kronecker layers with inputs declared in another order). R14f: no layer / semiring / query code views the direct result of einsum / permute / transpose / expand without contiguous() (a TensorDot layer with a contracted size of 1 raised at evaluation under optimize=True)."
-        " R14h: no operator driver indexes the inputs of a layer by their scopes (several observed inputs of one product layer share the empty scope and would collide). R4a/R4l on the parameter operators the product rules build (outer product / outer sum / Kronecker / Gaussian product statistics / polynomial product): declared shape for every rank and dim, and units of operand 1 major (Kronecker order (i, j))."
+        " R7e (outputs of multiply): the output pairs are enumerated with sc1.outputs as the outer and sc2.outputs as the inner index ('output (i, j) is the product of output i of c1 and output j of c2'). R14h: no operator driver indexes the inputs of a layer by their scopes (several observed inputs of one product layer share the empty scope and would collide). R4a/R4l on the parameter operators the product rules build (outer product / outer sum / Kronecker / Gaussian product statistics / polynomial product): declared shape for every rank and dim, and units of operand 1 major (Kronecker order (i, j))."
         " R3k: every constructor hyper-parameter of a concrete symbolic layer (everything but its params and *_factory alternatives) is a key of its config and round-trips through it -- Layer.copyref(), the copy every operator makes of a layer it does not transform, rebuilds the layer from config (a constant layer that loses log_space is read as linear by the next operator)."
     ),
     not_decided="Gaussian product statistics, polynomial convolution, the numerical content of the parameter operators (C14).",
